@@ -1,6 +1,16 @@
 package core
 
-import "go/token"
+import (
+	"go/token"
+	"go/types"
+)
+
+func intTypeOr(t types.Type) types.Type {
+	if t == nil {
+		return types.Typ[types.Int]
+	}
+	return t
+}
 
 // ---- small prover over the facts of the current path ----
 
@@ -46,6 +56,22 @@ func (x *Explorer) ProveLeq(a, b *Term) bool { // a <= b
 			}
 		}
 	}
+	// p + q <= b  <=  q <= b - p  (q is b - p itself, or a recorded fact says so); both orders
+	if a.Kind == KBin && a.Op == token.ADD && !a.Args[1].IsConst() && x.depth < 3 {
+		for k := 0; k < 2; k++ {
+			p, q := a.Args[k], a.Args[1-k]
+			d := x.Bin(token.SUB, b, p, intTypeOr(a.Type))
+			if q == d {
+				return true
+			}
+			x.depth++
+			r := x.ProveLeq(q, d)
+			x.depth--
+			if r {
+				return true
+			}
+		}
+	}
 	// a' + 1 <= b  <=  a' < b (integers)
 	if a.Kind == KBin && a.Op == token.ADD {
 		if k, isC := a.Args[1].Int64(); isC && k == 1 && x.Prove(x.Lt(a.Args[0], b)) {
@@ -66,6 +92,25 @@ func (x *Explorer) ProveLeq(a, b *Term) bool { // a <= b
 	if b.Kind == KBin && b.Op == token.ADD {
 		if (b.Args[0] == a && x.NonNeg(b.Args[1])) || (b.Args[1] == a && x.NonNeg(b.Args[0])) {
 			return true
+		}
+	}
+	// k <= B - p  <=  p + k <= B  (k constant)
+	if b.Kind == KBin && b.Op == token.SUB && !b.Args[1].IsConst() && x.depth < 3 {
+		if k, isC := a.Int64(); isC {
+			x.depth++
+			var r bool
+			switch {
+			case k <= 0:
+				r = x.ProveLeq(b.Args[1], b.Args[0])
+			case k == 1:
+				r = x.ProveLt(b.Args[1], b.Args[0])
+			default:
+				r = x.ProveLeq(x.Bin(token.ADD, b.Args[1], a, intTypeOr(b.Type)), b.Args[0])
+			}
+			x.depth--
+			if r {
+				return true
+			}
 		}
 	}
 	// a <= b - k  <=  a + k <= b ... only the k = 1 case: a < b
@@ -116,6 +161,15 @@ func (x *Explorer) ProveLt(a, b *Term) bool { // a < b
 	}
 	if hi, has := x.Upper(a); has {
 		if lo, has2 := x.Lower(b); has2 && hi < lo {
+			return true
+		}
+	}
+	// a <= b and a != b
+	if v, ok := x.Decide(x.Eq(a, b)); ok && !v && x.depth < 2 {
+		x.depth += 2
+		r := x.ProveLeq(a, b)
+		x.depth -= 2
+		if r {
 			return true
 		}
 	}
